@@ -206,19 +206,28 @@ def build_target(target, timeout=3000):
     """make one .vo (and what it depends on). Returns (ok, log)."""
     with Lock("coq"):
         ensure_makefile()
-        rc, out = run(["make", "-j16", target], cwd=COQ, timeout=timeout)
+        rc, out = run(["make", "-j16"] + target.split(), cwd=COQ, timeout=timeout)
         return rc == 0, out
 
 
+def prop_files(prop):
+    """Props/Cxx.v plus the optional Props/Cxx_*.v (e.g. Cxx_history.v: refutations of the
+    full statement for the code as it was before a repair)."""
+    return [os.path.relpath(f, COQ) for f in sorted(glob.glob(os.path.join(COQ, "Props", prop + ".v")) +
+                                                   glob.glob(os.path.join(COQ, "Props", prop + "_*.v")))]
+
+
 def theorems_of(prop):
-    path = os.path.join(COQ, "Props", prop + ".v")
-    txt = open(path).read()
-    return re.findall(r"^\s*Theorem\s+(\w+)", txt, flags=re.M)
+    res = []
+    for f in prop_files(prop):
+        txt = strip_comments(open(os.path.join(COQ, f)).read())
+        res += re.findall(r"^\s*Theorem\s+(\w+)", txt, flags=re.M)
+    return res
 
 
 def print_assumptions(prop, thms, workdir):
     """Fresh coqc run printing the assumptions of each theorem; returns {thm: [axioms]}."""
-    src = "From Ecal Require Import Props.%s.\n" % prop
+    src = "".join("From Ecal Require Import %s.\n" % f[:-2].replace("/", ".") for f in prop_files(prop))
     for t in thms:
         src += 'Goal True. idtac "@@THM %s". exact I. Qed.\nPrint Assumptions %s.\n' % (t, t)
     src += 'Goal True. idtac "@@END". exact I. Qed.\n'
@@ -379,7 +388,7 @@ def check(prop, tier, seed, cfg, replay=None):
     violations = []  # (key, desc, replay payload) concrete failing inputs
     notes = []
 
-    gated = closure_files(["Props/%s.v" % prop, "Run/Run%s.v" % prop])
+    gated = closure_files(prop_files(prop) + ["Run/Run%s.v" % prop])
     gate = source_gate(gated)
     if gate:
         broken.append(("source-gate", "forbidden vernacular in the files this property depends on: " + ", ".join(gate[:5])))
@@ -389,7 +398,7 @@ def check(prop, tier, seed, cfg, replay=None):
         if g == "core" or g in cfg.get("generators", []):
             broken.append(("translator", "generator %s: %s" % (g, out[-1500:])))
 
-    ok, out = build_target("Props/%s.vo" % prop)
+    ok, out = build_target(" ".join(f + "o" for f in prop_files(prop)))
     thms = theorems_of(prop)
     proofs_ok = ok
     if not ok:
